@@ -415,7 +415,7 @@ func main() {
 					}
 				}
 			}
-			if bestRep != nil && bestRep.failing(vdir) < rep.failing(vdir) {
+			if bestRep != nil && bestRep.failing(vdir) <= rep.failing(vdir) {
 				// every form fails: the findings of the form with the fewest are the ones to read (the others add what a
 				// rule cannot see through the helper on top of the same defect)
 				bestRep.Add(id+".normalisation", "findings reported on the program with extracted helpers expanded", "-", OK, "")
